@@ -62,14 +62,10 @@ theorem dsExtend_ok (us : Units) (h : Heap) (d e : DS) (h' : Heap) (d' : DS)
         · intro hp
           by_cases hx : (False ∨ c.name ∈ names e.fields)
           · have hx' : c.name ∈ names e.fields := by simpa using hx
-            have hm0 : e.numObs = 0 := by
-              simp only [onlyInSelf, Bool.or_eq_true, Bool.and_eq_true, Bool.not_eq_true', beq_iff_eq,
-                List.contains_eq_mem, decide_eq_true_eq, decide_eq_false_iff_not] at hp
-              rcases hp with hp | hp
-              · exact absurd hx' hp.2
-              · exact hp.1
-            have := c3 hx
-            rw [hm0] at this; simpa using this
+            exfalso
+            simp only [onlyInSelf, Bool.and_eq_true, Bool.not_eq_true',
+              List.contains_eq_mem, decide_eq_true_eq, decide_eq_false_iff_not] at hp
+            exact hp.2 hx'
           · exact (c4 hx).1
         · intro hp
           by_cases hx : (False ∨ c.name ∈ names e.fields)
@@ -77,9 +73,9 @@ theorem dsExtend_ok (us : Units) (h : Heap) (d e : DS) (h' : Heap) (d' : DS)
           · exfalso
             have hx' : c.name ∉ names e.fields := by simpa using hx
             have hin := (c4 hx).2
-            simp only [onlyInSelf, Bool.or_eq_false_iff, Bool.and_eq_false_iff, Bool.not_eq_false',
+            simp only [onlyInSelf, Bool.and_eq_false_iff, Bool.not_eq_false',
               List.contains_eq_mem, decide_eq_false_iff_not, decide_eq_true_eq] at hp
-            rcases hp.1 with h0 | h0
+            rcases hp with h0 | h0
             · exact h0 hin
             · exact hx' h0)
       refine ⟨e1.trans e2, ?_, ⟨by show (names fs').Nodup; rw [hnames]; exact inv1.nodup, fun c hc => (hall c hc).1⟩, rfl⟩
